@@ -16,6 +16,8 @@ pub struct Scenario {
     pub tailkind: &'static str,
     /// (message index 0-based, byte offset inside the message) where each message's fds travel
     pub fd_off: Vec<usize>,
+    /// the first fd of a message travels with the byte at fd_off, the others with the first body byte
+    pub split: bool,
     /// cut positions inside the message stream (0-based byte offsets, exclusive ends of chunks)
     pub cuts: Vec<usize>,
     /// bytes of the message stream made readable together with the last handshake line
@@ -49,8 +51,16 @@ pub fn run_scenario(sc: &Scenario, out: &mut impl Write) {
     for (i, m) in sc.msgs.iter().enumerate() {
         if m.nfds > 0 {
             let pos = starts[i] + sc.fd_off[i].min(m.bytes.len() - 1);
-            let ids = attach_fds(&sh, pos, m.nfds, &mut next_id);
-            att.push(json!({"pos": pos - h + 1, "ids": ids}));
+            let pos2 = starts[i] + m.body_start.min(m.bytes.len() - 1);
+            if sc.split && m.nfds >= 2 && pos2 > pos {
+                let ids = attach_fds(&sh, pos, 1, &mut next_id);
+                att.push(json!({"pos": pos - h + 1, "ids": ids}));
+                let ids = attach_fds(&sh, pos2, m.nfds - 1, &mut next_id);
+                att.push(json!({"pos": pos2 - h + 1, "ids": ids}));
+            } else {
+                let ids = attach_fds(&sh, pos, m.nfds, &mut next_id);
+                att.push(json!({"pos": pos - h + 1, "ids": ids}));
+            }
         }
     }
     let role = match sc.via {
@@ -177,7 +187,7 @@ pub fn scenario_of_case(c: &J) -> Scenario {
         "server" => "server",
         _ => "auth",
     };
-    Scenario { id: c["id"].as_u64().unwrap_or(0), via, msgs, tail, tailkind, fd_off, cuts, left, eof: c["eof"].as_bool().unwrap_or(false), case: c.clone() }
+    Scenario { id: c["id"].as_u64().unwrap_or(0), via, msgs, tail, tailkind, fd_off, split: fdpos == "split", cuts, left, eof: c["eof"].as_bool().unwrap_or(false), case: c.clone() }
 }
 
 pub fn cmd_enum(args: &[String]) {
@@ -248,7 +258,9 @@ pub fn random_scenario(rng: &mut Rng, id: u64, max_msgs: u64, max_blob: u64, at_
         _ => rng.below(total.min(900) as u64 + 1) as usize,
     }
     .min(total);
-    Scenario { id, via, msgs, tail, tailkind, fd_off, cuts, left, eof, case: json!({"random": true}) }
+    let split = rng.chance(1, 3);
+    let fd_off = if split { fd_off.iter().map(|_| 0).collect() } else { fd_off };
+    Scenario { id, via, msgs, tail, tailkind, fd_off, split, cuts, left, eof, case: json!({"random": true}) }
 }
 
 pub fn cmd_rand(args: &[String]) {
